@@ -74,7 +74,10 @@ type bed struct {
 	client *http.Client
 }
 
-func (d *Driver) startBed() (*bed, error) {
+func (d *Driver) startBed() (*bed, error) { return d.startBedAt("") }
+
+// startBedAt starts the service with the given log level ("" = the harness default, error).
+func (d *Driver) startBedAt(level string) (*bed, error) {
 	rem := newRemote()
 	ep := func(path string) map[string]any {
 		return map[string]any{"url": rem.srv.URL + path, "http_cache": map[string]any{"enabled": false}}
@@ -117,6 +120,10 @@ func (d *Driver) startBed() (*bed, error) {
 		},
 		"error_handlers": []any{map[string]any{"id": "dflt", "type": "default"}},
 	}}
+
+	if level != "" {
+		cfg["log"] = map[string]any{"level": level}
+	}
 
 	a, err := app.Start(app.Options{Mode: app.Decision, Config: cfg})
 	if err != nil {
